@@ -5,7 +5,7 @@ from spec import idt as SI
 from ..bits import BV, TOP, lit, b_not
 from ..interp import State, Unsupported
 from ..values import UNIT, Array, Enum, Opaque, Ptr, Ref, Struct
-from .common import (asm_not_pure, U8, adt, arg_obj, bv, enum_val, eval_bv, eval_value, fn_site, inner, same, sl, _env_of, admits)
+from .common import (asm_not_pure, is_call_of, U8, adt, arg_obj, bv, enum_val, eval_bv, eval_value, fn_site, inner, same, sl, _env_of, admits)
 
 LEVEL = 'proof'
 IDT = 'structures::idt::InterruptDescriptorTable'
@@ -35,6 +35,8 @@ def run(chk):
     chk.guard('entry', 'entry encoding', lambda: entry(chk))
     chk.guard('options', 'option setters', lambda: options(chk))
     chk.guard('table', 'new/reset/pointer/load', lambda: table(chk, idt_lay))
+    chk.guard('table', 'Default', lambda: is_call_of(chk, chk.I, 'table', '<%s as core::default::Default>::default' % IDT, IDT + '::new', 'InterruptDescriptorTable::default() is new()'))
+    chk.guard('entry', 'Entry::eq', lambda: entry_eq(chk))
     chk.guard('asm-options', 'lidt / cs read', lambda: asm_not_pure(chk, chk.I, 'asm-options', ['src/instructions/tables.rs', 'src/instructions/segmentation.rs'], 20))
     chk.floor('obligations', len(chk.obs), 900)
 
@@ -468,3 +470,37 @@ def table(chk, lay):
         pan = [o for o in outs if o.kind != 'ret']
         chk.ob('table', '%s panics only if the table address is not canonical' % meth,
                len(pan) <= 1 and all(any('eq(' in str(nn[0]) and nn[1] == 0 for nn in o.st.notes) for o in pan), 'panic notes %r' % ([o.st.notes for o in pan],))
+
+
+def entry_eq(chk):
+    """two gates are equal exactly when all their bytes that mean something are: the three pointer parts, the selector and the option word
+    (the reserved dword is compared too: it is always zero)"""
+    I = chk.I
+    fn_ = '<%s<T> as core::cmp::PartialEq>::eq' % ENTRY
+    if fn_ not in I.fn:
+        chk.unproven('entry', 'Entry::eq', 'impl not found (anchor lost)')
+        return
+    # flip one field at a time: equal entries compare equal, entries differing in that field compare unequal
+    names = ['pointer_low', 'options.cs', 'options.bits', 'pointer_middle', 'pointer_high', 'reserved']
+
+    def mk(tag, diff=None):
+        def f(n, w):
+            return BV.sym(w, ('y.' if diff == n else 'x.') + n)
+        opts = Struct(OPTS, [I.wrap_scalar(adt('registers::segmentation::SegmentSelector'), f('options.cs', 16)), f('options.bits', 16)])
+        return Struct(ENTRY, [f('pointer_low', 16), opts, f('pointer_middle', 16), f('pointer_high', 32), f('reserved', 32), UNIT])
+    st = State()
+    a = arg_obj(st, 'a', mk('a'))
+    b = arg_obj(st, 'b', mk('b'))
+    o = I.run(fn_, [a, b], st, {'T': {'k': 'param', 'name': 'T'}})
+    chk.count('function-instances')
+    ok = bool(o) and all(x.kind == 'ret' and isinstance(x.val, BV) and x.val.is_const() and x.val.value() == 1 for x in o)
+    chk.ob('entry', 'Entry::eq: identical gates are equal', ok, 'paths %r' % (o,), fn_site(I, fn_))
+    for n in names:
+        st = State()
+        a = arg_obj(st, 'a', mk('a'))
+        b = arg_obj(st, 'b', mk('b', n))
+        o = I.run(fn_, [a, b], st, {'T': {'k': 'param', 'name': 'T'}})
+        chk.count('function-instances')
+        # the result must depend on the differing field: not constantly true
+        okn = bool(o) and not all(x.kind == 'ret' and isinstance(x.val, BV) and x.val.is_const() and x.val.value() == 1 for x in o) and all(x.kind == 'ret' for x in o)
+        chk.ob('entry', 'Entry::eq looks at %s' % n, okn, 'paths %r' % (o,), fn_site(I, fn_))
